@@ -499,7 +499,13 @@ def _rule_vars(f: ast.AST, mname: str) -> List[str]:
             if isinstance(n, ast.For) and isinstance(n.iter, ast.Call) and norm(n.iter.func).endswith("_rules_from_strategy"):
                 out.append(norm(n.target))
     elif mname == "__getitem__":
-        out.append("rule")
+        # the name that receives `x(comb_class)` for a strategy x (and x itself when x is a ready rule)
+        for n in walk_local(f):
+            if isinstance(n, (ast.Assign, ast.AnnAssign)) and getattr(n, "value", None) is not None and isinstance(n.value, ast.Call) and isinstance(n.value.func, ast.Name) \
+                    and len(n.value.args) == 1:
+                tg = n.targets[0] if isinstance(n, ast.Assign) and len(n.targets) == 1 else getattr(n, "target", None)
+                if isinstance(tg, ast.Name) and (f"isinstance({n.value.func.id}, AbstractStrategy)", True) in C.guard_texts(f, n) and tg.id not in out:
+                    out.append(tg.id)
     elif mname == "_rules_for_class":
         # the loop variable over strats_or_rules, in the branch where it is not a strategy
         for n in walk_local(f):
@@ -769,6 +775,11 @@ def a4b_clean_labels_call_site(ctx) -> None:
                     # no re-binding of the parameter reaches the call
                     redefs = [d for d in D.definitions(f).get(a0.id, []) if d[3] != "param" and d[0] is not C.stmt_of(c) and getattr(d[0], "lineno", 0) <= c.lineno]
                     ok = rv is None and not redefs
+                par_ = getattr(c, "_parent", None)
+                if not isinstance(par_, (ast.Assign, ast.AnnAssign, ast.Return, ast.Expr)):
+                    ctx.violation("A4", par_ if par_ is not None else c, f"{fi.qualname}: what _clean_labels hands back is reworked (`{norm(par_)[:70]}`) before it is used as the key: the kept "
+                                  "labels are a multiset (a rule may have the same child twice), and a rule with one label fewer is another rule -- with one label left it is "
+                                  "even filed as an equivalence")
                 if ok:
                     ctx.ok("A4", f"{fi.qualname}: _clean_labels receives the labels as they arrived (aligned with rule.children)")
                 else:
